@@ -148,17 +148,17 @@ class C14(core.Prop):
             res = []
             for t in inp['texts']:
                 def run(t=t):
-                    smile, bonding, ez, attrs = M.read_fragments.strip_bonding_descriptors(cat('C[C', t, ']O[$]'))
-                    return [smile, dict(attrs[1])]
+                    # an annotated bracket atom followed by a plain bracket atom
+                    smile, bonding, ez, attrs = M.read_fragments.strip_bonding_descriptors(cat('C[C', t, '][CH2]O[$]'))
+                    return [smile, dict(attrs[1]), dict(attrs[2])]
                 res.append(core.guard(run))
             return res
         if mode == 'cgatom':
             res = []
             for t in inp['texts']:
                 def run(t=t):
-                    d = M.read_fragments.read_fragments(cat('{#F=[#U][#V', t, '][$]}'), all_atom=False)
-                    a = dict(d['F'].nodes[1])
-                    return a
+                    d = M.read_fragments.read_fragments(cat('{#F=[#U][#V', t, '][#W][$]}'), all_atom=False)
+                    return [dict(d['F'].nodes[1]), dict(d['F'].nodes[2])]
                 res.append(core.guard(run))
             return res
 
@@ -201,11 +201,16 @@ class C14(core.Prop):
                     continue
                 got = o[1]
                 if mode == 'atom':
-                    cl.append(('clean_text', got[0] == 'C[C]O'))
+                    cl.append(('clean_text', got[0] == 'C[C][CH2]O'))
+                    # the plain bracket atom that follows carries the defaults only
+                    cl.append(('following_plain_atom_has_defaults', self._dict_eq(got[2], {'weight': 1.0})))
                     got = got[1]
                 if mode == 'cgatom':
+                    plain = {'fragname': 'F', 'atomname': 'W', 'fragid': 0, 'w': 1, 'bonding': ['$1'], 'charge': 0.0, 'weight': 1.0}
+                    cl.append(('following_plain_node_has_defaults', self._dict_eq(got[1], plain)))
+                    got = got[0]
                     e2 = dict(exp)
-                    e2.update({'fragname': 'F', 'atomname': 'V', 'fragid': 0, 'w': 1, 'bonding': ['$1'], 'charge': 0.0})
+                    e2.update({'fragname': 'F', 'atomname': 'V', 'fragid': 0, 'w': 1, 'charge': 0.0})
                     # the coarse fragment atom is itself a base-graph style node: documented defaults charge 0 / weight 1
                     cl.append(('keys', sorted(got.keys()) == sorted(e2.keys())))
                     if sorted(got.keys()) == sorted(e2.keys()):
